@@ -109,7 +109,7 @@ fn lockstep_run_then_segment<const P: usize, const N: usize>() {
 
 // @check id=C15 tier=quick cap=900 mem=24 solo=1 role=lockstep_run_then_segment
 // @fns parser::validate_parser_budget
-// @bound 64 concrete '(' + every segment of 2 symbols over {" / \ newline a ) ]} + one more '(' (67 characters)
+// @bound 64 concrete '(' + every segment of 2 symbols over {" / \ LF CR a ) ]} + one more '(' (67 characters)
 // @stubs alloc::fmt::format -> String::new() (error messages only)
 // @assume ASCII input (multi-byte characters are neither brackets nor quotes)
 #[kani::proof]
@@ -135,7 +135,7 @@ fn c15_budget_lockstep_run_then_segment3() {
 // at 4 characters: every symbolic push forks the Vec growth path. The opener run is concrete here.)
 // @check id=C15 tier=quick cap=900 mem=24 solo=1 role=never_over_rejects_at_limit
 // @fns parser::validate_parser_budget
-// @bound 64 concrete '(' followed by every segment of 2 symbols over {" / \ newline a ) ]} (no further opener): never refused
+// @bound 64 concrete '(' followed by every segment of 2 symbols over {" / \ LF CR a ) ]} (no further opener): never refused
 // @stubs alloc::fmt::format -> String::new() (error messages only)
 #[kani::proof]
 #[kani::unwind(69)]
